@@ -105,7 +105,28 @@ class Path:
         """False when two resolved facts contradict each other (same atom, both polarities): the path tests the same
         bound value twice with different outcomes."""
         nf = self.nfacts()
-        return not any((t, not p) in nf for t, p in nf)
+        if any((t, not p) in nf for t, p in nf):
+            return False
+        # comparisons between two literals (after substitution of the locals) decide themselves
+        for t, p in nf:
+            if not any(tok in t for tok in ("None", "True", "False")) and not t[:1].isdigit() and not t[:1] in "'\"-":
+                continue
+            try:
+                e = ast.parse(t, mode="eval").body
+            except SyntaxError:
+                continue
+            if isinstance(e, ast.Compare) and len(e.ops) == 1 and isinstance(e.left, ast.Constant) and isinstance(e.comparators[0], ast.Constant):
+                a, b = e.left.value, e.comparators[0].value
+                op = e.ops[0]
+                if isinstance(op, ast.Is):
+                    v = (a is b) if (a is None or b is None or isinstance(a, bool) or isinstance(b, bool)) else None
+                elif isinstance(op, ast.Eq):
+                    v = a == b
+                else:
+                    v = None
+                if v is not None and v != p:
+                    return False
+        return True
 
     def rvalue(self) -> str | None:
         return None if self.value is None else self.res(self.value, len(self.effects) - 1 if self.effects else None)
